@@ -282,7 +282,18 @@ func encOne(w []string) string {
 		if err != nil {
 			return "bad-op"
 		}
-		return "str " + machine.UInt64ToString(v)
+		// earlier results are still held by their callers: rendering another number must not change them
+		got := machine.UInt64ToString(v)
+		for i, h := range decHeld {
+			if h.s != h.copy {
+				return fmt.Sprintf("earlier-result-changed dec %d: was %q, now reads %q", decHeldOf[i], h.copy, h.s)
+			}
+		}
+		if len(decHeld) < 64 {
+			decHeld = append(decHeld, heldString{s: got, copy: strings.Clone(got)})
+			decHeldOf = append(decHeldOf, v)
+		}
+		return "str " + got
 	case "assume", "assert":
 		c := w[1] == "1"
 		return guard(func() string {
@@ -327,15 +338,18 @@ func encOne(w []string) string {
 	}
 	// the buffer handed to the code is a window into a larger array (capacity beyond its length), so that a
 	// write past the buffer's length lands in guard bytes instead of faulting
-	big := make([]byte, len(raw)+16)
+	// … and the window starts at every offset modulo 8 in turn (a field in the middle of a record is not word aligned)
+	encWindows++
+	off := 8 + int(encWindows%8)
+	big := make([]byte, len(raw)+32)
 	for i := range big {
 		big[i] = 0xA5
 	}
-	buf := big[8 : 8+len(raw)]
+	buf := big[off : off+len(raw)]
 	copy(buf, raw)
 	guardsIntact := func() bool {
 		for i := 0; i < 8; i++ {
-			if big[i] != 0xA5 || big[8+len(raw)+i] != 0xA5 {
+			if big[off-1-i] != 0xA5 || big[off+len(raw)+i] != 0xA5 {
 				return false
 			}
 		}
@@ -387,6 +401,13 @@ func concPutGet(g, it int, seed uint64) string {
 		return "ok"
 	}
 }
+
+var encWindows uint64 // buffers handed out so far
+
+type heldString struct{ s, copy string }
+
+var decHeld []heldString // results of UInt64ToString kept alive across calls, with a private copy of what they read at the time
+var decHeldOf []uint64
 
 func encBuf(w []string, buf []byte) string {
 	switch w[0] {
